@@ -19,12 +19,24 @@ Definition spec_pred {C} (eqb : C -> C -> bool) (pd : pred_spec) : nat -> list C
 (* rule families of this check: those of Model/Rules.v, and one more pure family that creeps to a
    ceiling - every cell becomes min(max(neighbourhood, 0) + 1, cap) - used for the float automata whose
    states are base + j * 2^-40 (the model works on the integers j; the rescaling is injective) *)
-Inductive rspec := RS (sp : rule_spec) | RCap (cap : Z).
+(* RAffC a b: a * (centre cell) + b - with a store that divides by a scale, the rule "centre + b/scale" *)
+Inductive rspec := RS (sp : rule_spec) | RCap (cap : Z) | RAffC (a b : Z).
+Definition centre1 (n : list Z) : Z := nth (length n / 2) n 0%Z.
+Definition centre2 (n : nbhd2) : Z := nth (length (nb_vals n) / 2) (nth (length (nb_vals n) / 2) (nb_vals n) []) 0%Z.
 Definition capinc (cap : Z) (vals : list Z) : Z := Z.min (fold_right Z.max 0%Z vals + 1)%Z cap.
 Definition rspec_rule1 (rs : rspec) : rule1 nat :=
-  match rs with RS sp => spec_rule1 sp | RCap cap => fun i n c t => (S i, capinc cap n) end.
+  match rs with RS sp => spec_rule1 sp | RCap cap => fun i n c t => (S i, capinc cap n)
+  | RAffC a b => fun i n c t => (S i, (a * centre1 n + b)%Z) end.
 Definition rspec_rule2 (rs : rspec) : rule2 nat :=
-  match rs with RS sp => spec_rule2 sp | RCap cap => fun i n c t => (S i, capinc cap (unmasked n)) end.
+  match rs with RS sp => spec_rule2 sp | RCap cap => fun i n c t => (S i, capinc cap (unmasked n))
+  | RAffC a b => fun i n c t => (S i, (a * centre2 n + b)%Z) end.
+
+(* dtype casts of the cases in which the rule's result is not a value of the dtype: a float result
+   (numerator over `scale`) stored into an integer automaton truncates toward zero; any result stored
+   into a bool automaton becomes "is non-zero" *)
+Inductive store_spec := StId | StQuot (scale : Z) | StBool.
+Definition store_of (st : store_spec) : Z -> Z :=
+  match st with StId => store_id | StQuot s => fun z => Z.quot z s | StBool => fun z => if (z =? 0)%Z then 0%Z else 1%Z end.
 
 Definition plog1 := list (list (list Z) * nat).
 Definition plog2 := list (list grid * nat).
@@ -36,7 +48,10 @@ Inductive case :=
      (obs : res (list grid * plog2))
 (* cases of the open finding cast-path: nothing is compared here (the model has one dtype cast `store`,
    the code has a different NumPy cast on the fixed and on the callable path for out-of-range results) *)
-| CSkip.
+| CSkip
+(* cpl.until_fixed_point() handed over directly (no logging wrapper): only the array is observable *)
+| C1D (sp : rspec) (st : store_spec) (r : nat) (hist : list (list Z)) (obs : res (list (list Z)))
+| C2D (sp : rspec) (st : store_spec) (r : nat) (ty : nbhd_type) (hist : list grid) (obs : res (list grid)).
 
 Definition fuel := 64.
 
@@ -52,6 +67,17 @@ Definition model2 (sp : rspec) (r : nat) (ty : nbhd_type) (hist : list grid) (pd
   | None => None
   end.
 
+Definition model1d sp st r hist : option (list (list Z)) :=
+  match evolve_plain_dynamic (rspec_rule1 sp) (store_of st) (spec_pred zlist_eqb PUfp) r fuel 0 0 hist with
+  | Some (_, _, out, _) => Some out
+  | None => None
+  end.
+Definition model2d sp st r ty hist : option (list grid) :=
+  match evolve2d_plain_dynamic (rspec_rule2 sp) (store_of st) (spec_pred zgrid_eqb PUfp) r ty fuel 0 0 hist with
+  | Some (_, _, out, _) => Some out
+  | None => None
+  end.
+
 (* printable model output; 1D rows are shown as one-row grids *)
 Definition model_out (c : case) : option (list grid * plog2) :=
   match c with
@@ -63,6 +89,8 @@ Definition model_out (c : case) : option (list grid * plog2) :=
       end
   | C2 sp r ty hist pd _ => model2 sp r ty hist pd
   | CSkip => None
+  | C1D sp st r hist _ => match model1d sp st r hist with Some out => Some (map (fun row => [row]) out, []) | None => None end
+  | C2D sp st r ty hist _ => match model2d sp st r ty hist with Some out => Some (out, []) | None => None end
   end.
 
 Definition plog_eqb {A} (eq : A -> A -> bool) (a b : list (list A * nat)) : bool :=
@@ -83,5 +111,9 @@ Definition check_case (c : case) : bool :=
       | None => false
       end
   | CSkip => true
+  | C1D sp st r hist (Ok out) =>
+      match model1d sp st r hist with Some mout => list_eqb zlist_eqb mout out | None => false end
+  | C2D sp st r ty hist (Ok out) =>
+      match model2d sp st r ty hist with Some mout => list_eqb zgrid_eqb mout out | None => false end
   | _ => false
   end.
